@@ -37,7 +37,7 @@ plan("C03", "other",
 plan("C04", "other",
      "args_from_input equals CPython's co_varnames layout for all counts and all co_varnames lengths (E1, z3/cvc5 sequences, four flag cases), consumes exactly VARARGS/VARKEYWORDS (E1), round trip "
      "with args_to_input (E1); docstring = first constant iff str (also the empty string), kind iff flag, type None iff neither function flag: to_code_data modular over a symbolic flag set (E1); "
-     "Args.parameters order/kinds and len(args) are bounded (E2, <= 2 names per group); agreement with inspect.signature / __doc__ / inspect.is*function on all signature shapes x scope kinds (E3).")
+     "Args.parameters order/kinds and len(args) for groups of every length: the real args_to_parameters / Args.parameters / Args.__len__ run on symbolic-length groups (E1, generic-element rule for the map-only generators; distinct names as WF), additionally enumerated for <= 2 names per group (E2); agreement with inspect.signature / __doc__ / inspect.is*function on all signature shapes x scope kinds (E3).")
 plan("C05", "other",
      "normalize postcondition per constructor with symbolic fields - every private field reset, every public field kept, recursively, idempotent (E1; structural induction is the meta-step) - plus "
      "the encoder contracts of C03 (table seeding, docstring slot, jump update).  'Executing both gives the same results, output, exceptions and line events' quantifies over CPython's evaluation "
